@@ -5172,7 +5172,11 @@ namespace detail {
             {
                 if ((*it).is_operator()) {
                     auto rhs = unwind_roperator(output_stack, *it);
-                    JSONCONS_ASSERT(!rhs.empty());
+                    if (rhs.empty()) // an operator without a right operand
+                    {
+                        ec = jmespath_errc::syntax_error;
+                        return;
+                    }
                     (*it).expression_->add_expression(resources.create_expression(function_expression(std::move(rhs))));
                 }
                 output_stack.push_back(std::move(*it));
@@ -5492,7 +5496,11 @@ namespace detail {
                         {
                             if (it->is_operator()) {
                                 auto rhs = unwind_roperator(output_stack, *it);
-                                JSONCONS_ASSERT(!rhs.empty());
+                                if (rhs.empty()) // an operator without a right operand
+                                {
+                                    ec = jmespath_errc::syntax_error;
+                                    return;
+                                }
                                 it->expression_->add_expression(resources.create_expression(function_expression(std::move(rhs))));
                             }
                             output_stack.push_back(std::move(*it));
@@ -5511,7 +5519,11 @@ namespace detail {
                                    || (tok.precedence_level() == (*it).precedence_level() && !tok.is_right_associative())))
                         {
                             auto rhs = unwind_roperator(output_stack, *it);
-                            JSONCONS_ASSERT(!rhs.empty());
+                            if (rhs.empty()) // an operator without a right operand
+                            {
+                                ec = jmespath_errc::syntax_error;
+                                return;
+                            }
                             it->expression_->add_expression(resources.create_expression(function_expression(std::move(rhs))));
                             output_stack.push_back(std::move(*it));
                             ++it;
@@ -5578,7 +5590,11 @@ namespace detail {
                         if ((*it).is_operator()) 
                         {
                             auto rhs = unwind_roperator(output_stack, *it);
-                            JSONCONS_ASSERT(!rhs.empty());
+                            if (rhs.empty()) // an operator without a right operand
+                            {
+                                ec = jmespath_errc::syntax_error;
+                                return;
+                            }
                             (*it).expression_->add_expression(resources.create_expression(function_expression(std::move(rhs))));
                         }
                         output_stack.push_back(std::move(*it));
